@@ -54,6 +54,7 @@ REGEX_POOL = ["/^[0-9]+$/", "/abc/", "/^a.*z$/i", "/(x|y)/", "/\\d+/"]
 # expressions already in the normal form the transformer stores (C10: re-parsing is stable)
 EXPR_POOL = ["( [a] = 1 )", "( ( [a] = 1 ) AND ( [b] = 2 ) )", "( ( [pop] > 100 ) OR ( [pop] < 5 ) )",
              "( \"[name]\" = \"x\" )", "([a] + 2)", "([a] * 2 - 1)", "( ( [a] >= 1.5 ) AND ( NOT ( [b] = 'y' ) ) )"]
+EXPR_POOL += ['( "[note]" = "closed :-)" )', "( '[code]' ~ '^A(1' )", "(([a] + 1) * ([b] + 2))", "( ( [a] = 1 ) AND ( [b] = `(x` ) )"]
 EXPR_POOL = [e for e in EXPR_POOL if "NOT" not in e]
 CHAR_POOL = ["x", "D", "\u00e9", "7"]
 KVKEY_POOL = ["wms_title", "OWS_Enable_Request", "Qstring", "default_BASE", "wfs_SRS", "gml_Include_Items", "key-1", "a:b"]
